@@ -91,13 +91,18 @@ def handle : Sexp → Option Sexp
       let o' := unpickle h0 (pickle o)
       pure (.list [encode (erase o'), ofBool (cached o' == pyHash h0 a), ofBool (pyEq h0 (erase o') a),
                    ofBool (cached o == pyHash h0 a), ofBool (wf a)])
-  | .list [.atom "c16.assign", a, .list ops, fresh] => do
+  -- `fx` = 1: the implementation contains the repair of C16-F7 (probed by the harness); the hash
+  -- of the mutated object is then `hashAfter` (recomputed through Function/Lambda), else the cached field
+  | .list [.atom "c16.assign", fx, a, .list ops, fresh] => do
+      let fx := (← fx.nat?) != 0
       let a ← decode a
       let fresh ← decode fresh
       let ops ← allSome decodeOp ops
-      let o := ops.foldl (fun o (op : List Nat × Bool × PyVal × String) => assignAt h0 op.2.1 op.2.2.1 op.2.2.2 op.1 o) (build h0 a)
+      let ops' : List Op := ops.map fun (op : List Nat × Bool × PyVal × String) => ⟨op.1, op.2.1, op.2.2.1, op.2.2.2⟩
+      let o := runOps h0 ops' (build h0 a)
       pure (.list [encode (erase o), ofBool (pyEq h0 (erase o) fresh), ofBool (pyEq h0 fresh (erase o)),
-                   ofBool (cached o == pyHash h0 fresh), ofBool (cached o == pyHash h0 a)])
+                   ofBool (objHash h0 fx o == pyHash h0 fresh), ofBool (objHash h0 fx o == pyHash h0 a),
+                   ofBool (validOps h0 ops' (build h0 a))])
   | _ => none
 
 end PS.C16
